@@ -242,6 +242,30 @@ func c08One(t *testing.T, run *c08Run) {
 		p2 := filepath.Join(local, "zjunk-prog@v1.0.0-go1.21.0-linux-amd64-2024-01-01.v1.count")
 		os.WriteFile(p2, junk, 0666)
 		w.extras[p2] = sha(junk)
+		// in the week of the first early file: two files with a valid header but a damaged body
+		// (cannot be read: must stay untouched even though their week gets its report), and two
+		// readable files without any counter, sorting before and after all others (they change nothing)
+		for i, f := range run.Files {
+			if isLate[f] {
+				continue
+			}
+			endT, _ := time.Parse("2006-01-02", c08WeekDate[run.WeekOf[i]])
+			meta := rt.V1Meta(endT.AddDate(0, 0, -7).Format(time.RFC3339), endT.Format(time.RFC3339), "prog", "v1.0.0", "go1.21.0", "linux", c08Arch(f))
+			full, _ := rt.WriteV1(meta, []rt.V1Entry{{Name: "c", Value: 1 << 21}})
+			hdr := append([]byte{}, full[:rt.V1HeaderLen(meta)]...)
+			p3 := filepath.Join(local, "mcut-prog@v1.0.0-go1.21.0-linux-"+c08Arch(f)+"-2024-01-02.v1.count")
+			os.WriteFile(p3, hdr, 0666)
+			w.extras[p3] = sha(hdr)
+			tab := rt.V1HeaderLen(meta) + 4
+			binary.LittleEndian.PutUint32(full[tab+4*rt.V1Hash("c"):], 0x00ffff00)
+			p4 := filepath.Join(local, "mlink-prog@v1.0.0-go1.21.0-linux-"+c08Arch(f)+"-2024-01-03.v1.count")
+			os.WriteFile(p4, full, 0666)
+			w.extras[p4] = sha(full)
+			empty, _ := rt.WriteV1(meta, nil)
+			os.WriteFile(filepath.Join(local, "aaa-idle-prog@v1.0.0-go1.21.0-linux-"+c08Arch(f)+"-2024-01-04.v1.count"), empty, 0666)
+			os.WriteFile(filepath.Join(local, "zzz-idle-prog@v1.0.0-go1.21.0-linux-"+c08Arch(f)+"-2024-01-05.v1.count"), empty, 0666)
+			break
+		}
 	}
 	cfg := &telemetry.UploadConfig{GOOS: []string{"linux"}, GOARCH: []string{"amd64", "386"}, GoVersion: []string{"go1.21.0"}, SampleRate: 1,
 		Programs: []*telemetry.ProgramConfig{{Name: "prog", Versions: []string{"v1.0.0"}, Counters: []telemetry.CounterConfig{{Name: "c", Rate: 1}}}}}
@@ -266,9 +290,11 @@ func c08One(t *testing.T, run *c08Run) {
 			w.acked = append(w.acked, rt.M{"w": wk, "body": b})
 			rw.WriteHeader(200)
 		case "4xx":
-			rw.WriteHeader(400)
+			// any client error, not only 400
+			rw.WriteHeader([]int{400, 404, 401, 403, 408, 409, 413, 422, 429, 451, 499}[(run.ID+len(w.posts))%11])
 		default:
-			rw.WriteHeader(500)
+			// any server error, not only 500
+			rw.WriteHeader([]int{500, 501, 503, 502, 504, 505, 507, 508, 511, 520, 599}[(run.ID+len(w.posts))%11])
 		}
 	}))
 	defer srv.Close()
@@ -318,8 +344,10 @@ func c08One(t *testing.T, run *c08Run) {
 	}
 	defer func() { rt.FaultHook = nil }()
 
-	for _, name := range run.Uploaders {
+	for ui, name := range run.Uploaders {
 		name := name
+		// the uploaders start on different UTC days (13 h apart); the same count files are finished for all of them
+		start := start.Add(time.Duration(ui) * 13 * time.Hour)
 		tk := s.Go(name, func() {
 			for k := 0; k < run.MaxRuns; k++ {
 				rt.Yield("run", "")
